@@ -19,7 +19,8 @@ RULE_NAME = {
     ("tables", "check_wiring"): "WIRING", ("tables", "check_stride"): "STRIDE", ("apirules", "check_splice"): "SPLICE",
     ("apirules", "check_escape"): "ESCAPE", ("apirules", "check_scanner"): "SCANNER", ("twin", "check_twin"): "TWIN",
     ("twin", "check_xconfig"): "XCONFIG", ("twin", "check_possib"): "POSSIB", ("twin", "check_hashiter"): "HASHITER",
-    ("twin", "check_cfginv"): "CFGINV", ("twin", "check_countsib"): "COUNTSIB",
+    ("twin", "check_cfginv"): "CFGINV", ("twin", "check_countsib"): "COUNTSIB", ("twin", "check_unfoldsib"): "UNFOLDSIB",
+    ("twin", "check_surrsib"): "SURRSIB", ("peeked", "check"): "PEEKED", ("coverall", "check"): "COVERALL", ("flagsrc", "check"): "FLAGSRC",
 }
 
 
